@@ -140,7 +140,11 @@ def create_warning(
     else:
         # docutils
         if _is_suppressed_warning(
-            type_str, subtype_str, document.settings.myst_suppress_warnings or []
+            type_str,
+            subtype_str,
+            # (a document parsed with docutils settings that do not come from the MyST parser's
+            # own option parser - an rst include with :parser: - has no such setting)
+            getattr(document.settings, "myst_suppress_warnings", None) or [],
         ):
             return None
         kwargs = {}
